@@ -48,7 +48,8 @@ func c16wWorld(translation bool) (*vfWorld, error) {
 			knobs ^= vfKnobFVI | vfKnobRepEP | vfKnobSAMap
 		}
 		vfUnrelated(cfg, knobs)
-		cfg.ACLPolicy = &config.ACLPolicy{AllowedNamespaces: []string{"allowed-ns", "allowed-2"}}
+		// (a longer list, with the names the cases use in the middle of it)
+		cfg.ACLPolicy = &config.ACLPolicy{AllowedNamespaces: []string{"vf-a1", "vf-a2", "vf-a3", "vf-a4", "allowed-2", "allowed-ns", "vf-a7", "vf-a8"}}
 		if translation {
 			cfg.NamespaceTranslation.Mappings = []config.StringMapping{{Local: "allowed-ns", Remote: "r-allowed-ns"}, {Local: "forbidden-ns", Remote: "r-forbidden-ns"}, {Local: "allowed-2", Remote: "r-allowed-2"}}
 		}
